@@ -32,6 +32,8 @@ type C16Node struct {
 	Lie bool
 	// AnnReply: how it answers the announce_peer it may receive: ok | error | silent
 	AnnReply string
+	// OwnID: answers under the announcing node's own ID
+	OwnID bool
 }
 
 type C16Sc struct {
@@ -75,6 +77,7 @@ func genC16(t *rapid.T) C16Sc {
 		nd := C16Node{IDCpl: rapid.IntRange(0, 20).Draw(t, "n.cpl"), IDTail: genBytesN(t, 20, "n.tail"),
 			Reply: rapid.SampledFrom([]string{"token", "token", "token", "token", "token", "empty-token", "no-token", "int-token", "error", "silent"}).Draw(t, "n.reply"),
 			Lie:   rapid.IntRange(0, 7).Draw(t, "n.lie") == 0, AnnReply: pick(t, "n.annreply", "ok", "ok", "ok", "ok", "error", "silent")}
+		nd.OwnID = uniformInt(t, 16, "n.ownid") == 0
 		if rapid.IntRange(0, 2).Draw(t, "n.hasvalues") == 0 {
 			nd.Values = rapid.IntRange(1, 5).Draw(t, "n.values")
 		}
@@ -143,6 +146,10 @@ func runC16(sc C16Sc, c *kit.Case) *kit.Violation {
 		answerID[i] = ids[i]
 		if nd.Lie {
 			answerID[i] = refmodel.WithPrefix(ih, (nd.IDCpl+7)%21, arr20(nd.IDTail))
+		}
+		if nd.OwnID {
+			answerID[i] = sv.ID
+			c.Label("responder-claims-our-id")
 		}
 	}
 	var mu sync.Mutex
